@@ -339,7 +339,7 @@ class Run:
             "coverage": cov, "assumptions": self.assumptions, "wall_s": round(wall, 3),
             "violations": int(nviol),
         }
-        if write_evidence:
+        if write_evidence and not os.environ.get("VERIF_NOEVIDENCE"):
             d = VERIF / "evidence"
             d.mkdir(exist_ok=True)
             (d / (self.pid + ".json")).write_text(json.dumps(jsonable(ev), indent=1) + "\n")
@@ -347,11 +347,13 @@ class Run:
             e = self._known[(self.pid, key)]
             print("KNOWN-FINDING: property=%s %s (%d occurrences this run)" %
                   (self.pid, e["what"], n))
-        printed = set()
+        printed = collections.Counter()
         for v in self.violations:
+            printed[v["key"]] += 1
+            if printed[v["key"]] > MAX_REPLAYS_PER_KEY:
+                continue
             print("VIOLATION property=%s replay=%s" % (self.pid, v["replay"]))
-            if v["key"] not in printed:
-                printed.add(v["key"])
+            if printed[v["key"]] == 1:
                 print("  [%s] %s (%d occurrence(s) of this mechanism)" %
                       (v["key"], v["message"][:600], self.violation_counts[v["key"]]))
         if nviol:
